@@ -18,8 +18,8 @@ pub fn spec() -> PropSpec {
     PropSpec {
         id: "C18",
         level: "fault_enumeration",
-        rule: "fault sequences over {refuse (port closed for 1.5 s), accept+close, accept+frames+close, accept+frames+partial line+RST, accept+junk bytes incl. invalid UTF-8+close} followed by a healthy connection that sends new aircraft and stays open; the harness owns the loopback peer and runs the built CLI (release profile; three sequences, among them 3000 immediate closes, also with the dev profile's overflow checks) with -t. Quick: every single fault, every ordered pair, and generated sequences of length 3-4; thorough: every sequence of length <= 3 plus generated ones of length 4. Oracle after every step and at the end: the process is alive; the healthy connection is accepted; the refresh printed after it lists every aircraft learned over cleanly delivered earlier connections and the new ones; no row for the truncated line; after a refusal the next accepted connection arrives >= 4.5 s after the refused attempt. Non-trivial = sequence with >= 1 mid-line reset or refusal and >= 1 aircraft learned before it; distinct by hash of the sequence",
-        assumptions: &["only the lower bound of the retry pause is asserted", "a reconnect that does not arrive within 60 s is reported as inconclusive (exit 2), not as a violation", "frames sent on a connection that is then reset may or may not have been read"],
+        rule: "fault sequences over {refuse (port closed for 1.5 s), accept+close, accept+frames+close, accept+frames+partial line+RST, accept+junk bytes incl. invalid UTF-8+close} followed by a healthy connection that sends new aircraft and stays open; the harness owns the loopback peer and runs the built CLI (release profile; three sequences, among them 3000 immediate closes, also with the dev profile's overflow checks) with -t. Quick: every single fault, every ordered pair, and generated sequences of length 3-4; thorough: every sequence of length <= 3 plus generated ones of length 4. Oracle after every step and at the end: the process is alive; the healthy connection is accepted; the refresh printed after it lists every aircraft learned over cleanly delivered earlier connections and the new ones; no row for the truncated line; after a refusal the next accepted connection arrives >= 4.5 s after the refused attempt, and after four refusals in a row not later than 28 s after the first (pauses must not grow). Non-trivial = sequence with >= 1 mid-line reset or refusal and >= 1 aircraft learned before it; distinct by hash of the sequence",
+        assumptions: &["the lower bound of the retry pause is asserted everywhere; the upper bound only after four refused attempts in a row (the fifth must arrive within 28 s where 20 s is nominal: 8 s of slack for load)", "a reconnect that does not arrive within 60 s is reported as inconclusive (exit 2), not as a violation", "frames sent on a connection that is then reset may or may not have been read"],
         workers: 8,
         also_nochk: false,
         fuzz_target: None,
@@ -245,6 +245,9 @@ fn drive(seq: &[Fault], peer: &mut Peer, child: &mut Child, outpath: &std::path:
             let very_long = i > 0 && steps[i - 1] == Some(Fault::VeryLongRefuse);
             if very_long && waited < 19.5 {
                 return Err(format!("the port was closed for 16.5 s (four refused attempts) but the next connection arrived after {:.2} s: a ~5 s pause after each failed attempt is missing", waited));
+            }
+            if very_long && waited > 28.0 {
+                return Err(format!("the port was closed for 16.5 s (four refused attempts, nominally 20 s until the fifth) but the next connection arrived only after {:.2} s: the pause after a failed attempt does not stay at about 5 s", waited));
             }
             if long && waited < 9.5 {
                 return Err(format!("the port was closed for 6.5 s (two refused attempts) but the next connection arrived after {:.2} s: a ~5 s pause after each failed attempt is missing", waited));
